@@ -308,6 +308,14 @@ func preemptScenariosFor(prop string) []scn {
 		v2(flowParams{Sources: 2, Records: 1, Batch: 1, Dests: 1, AckMenu: okNack, Stop: "", MaxOcc: 2, PointOnly: pts}, 1, 2)
 	}
 	switch prop {
+	case "C07":
+		// two sources have a record rejected at about the same time: their dead-letter writes share one DLQ connector
+		// (v1) whose write / confirmation pairs must not cross
+		// (the rejections come from per-source processors, which run on their own goroutines; a single destination would
+		// hand them over one after the other)
+		perSrc := []procParam{{ID: "pa", Parent: "s0", Kinds: []string{"e"}}, {ID: "pb", Parent: "s1", Kinds: []string{"e"}}}
+		v1(flowParams{Sources: 2, Records: 1, Batch: 1, Dests: 1, AckMenu: onlyOK, Procs: perSrc, MaxOcc: 3}, 1, 2)
+		v2(flowParams{Sources: 2, Records: 1, Batch: 1, Dests: 1, AckMenu: onlyOK, Procs: perSrc, MaxOcc: 3}, 1, 2)
 	case "C12":
 		// the force stop lands while a node goroutine of the run is parked between two of its own statements
 		v1(flowParams{Sources: 1, Records: 2, Batch: 1, Dests: 1, AckMenu: []string{"ok", "defer"}, Stop: "force"}, 1, 2)
